@@ -101,3 +101,22 @@ package spynode
 // program heap that existed before (assumed frame; its result is not specified here).
 //@ func fetchSpentOutputs
 //@   opt frame = freshonly except client.Tx!Outputs
+
+// An unconfirmed transaction reaches the handlers as new only through the unconfirmed set's Add
+// gate (added == true: first time this txid enters the set) and only if it is relevant; with
+// double-spend evidence it is delivered unsafe, and each previously delivered conflicting
+// transaction gets an unsafe (never safe) state update.
+//@ spec pbase(n) = n != nil && same(n.txs, n.memPool, n.txTracker, n.store) && n.txs != nil && n.memPool != nil
+//@     && handlersstorage.InvU(n.txs) && !held(n.txs.unconfirmedLock) && !held(n.txs.blockLock)
+
+//@ func (*Node).processUnconfirmedTx
+//@   serves C03 C05 C07
+//@   opt nomonitor = 1
+//@   opt partial = 1
+//@   opt abstract = AddTransaction TxTracker.Remove FetchTxState SaveTxState fetchSpentOutputs
+//@   requires pbase(node) && tx.Msg != nil
+//@   loop * invariant pbase(node)
+//@   assert delivered_once at call HandleTx : [C03] added && Relevant(tx.Msg) && arg2 == txState
+//@   assert double_spend_is_unsafe at call HandleTx : [C05] len(conflicts) > 0 ==> arg2.State.UnSafe && !arg2.State.Safe
+//@   assert safe_needs_vouching at call HandleTx : [C07] arg2.State.Safe ==> len(conflicts) == 0
+//@   assert loser_flagged_unsafe at call HandleTxUpdate : [C05] isRelevant && arg2.State.UnSafe && !arg2.State.Safe
